@@ -572,7 +572,7 @@ func c20Run(run *ev.Run) {
 	depth := 5
 	if run.Tier == "thorough" {
 		settings = []string{"A", "B", "C", "D"}
-		depth = 6
+		depth = 5 // four settings at the quick tier's depth; one more level for the watched setting alone below
 	}
 	m := c20Model(run, settings)
 	m.MaxDepth = depth
@@ -581,6 +581,19 @@ func c20Run(run *ev.Run) {
 		run.Cap(fmt.Sprintf("rotation histories stopped at depth %d of %d", st.DepthDone, depth))
 	}
 	run.Extra["rotation_levels"] = st.LevelSizes
+	if run.Tier == "thorough" {
+		// one level deeper for the watched setting with the 1 s interval alone
+		m2 := c20Model(run, []string{"B"})
+		m2.MaxDepth = depth + 1
+		st2 := seqx.Explore(run, m2)
+		if !st2.Complete {
+			run.Cap(fmt.Sprintf("rotation histories (setting B alone) stopped at depth %d of %d", st2.DepthDone, depth+1))
+		}
+		st.States += st2.States
+		st.Transitions += st2.Transitions
+		st.Histories += st2.Histories
+		run.Extra["rotation_levels_B_alone"] = st2.LevelSizes
+	}
 	run.States, run.Transitions, run.Traces = st.States+evals, st.Transitions+evals, st.Histories+evals
 	for _, sc := range c20Scenarios(run.Tier) {
 		cs := schedx.Explore(run, "C20", sc)
